@@ -26,15 +26,15 @@ Proof.
   unfold names_of. rewrite count_dedup. cbn [existsb]. split; reflexivity.
 Qed.
 
-(* nothing else is produced for the additional writers, and a writer other than a SyslogWriter emits only
-   within its ceiling *)
+(* nothing else is produced for the additional writers, and no writer - custom, FileLogWriter or SyslogWriter - emits
+   above its ceiling *)
 Theorem C13_ceiling :
   forall ws lvl names n, In (EvWrite n true) (fst (serve ws lvl names)) ->
-    exists w, find_writer ws n = Some w /\ In n names /\ (ow_kind w <> WSyslog -> lvl <= ow_max w).
+    exists w, find_writer ws n = Some w /\ In n names /\ lvl <= ow_max w.
 Proof.
   intros ws lvl names n H. destruct (serve_events ws lvl names _ H) as [[m [w [E [I [D F]]]]]|[m [E _]]]; [|discriminate].
   injection E as Hn He. subst m. exists w. split; [exact F|]. split; [exact I|].
-  intros K. unfold emits in He. destruct (ow_kind w); try contradiction; apply Nat.leb_le; auto.
+  unfold emits in He. apply Nat.leb_le. auto.
 Qed.
 
 (* the default channel is reached only through _Default and only if the specification enables the module path *)
